@@ -31,9 +31,16 @@ theorem cur_live : Live Skeleton.current :=
   { hyg := cur_hyg, nochan := cur_nochanclose, wakes := cur_wakes, outside := by decide,
     selDone := by decide, selCtx := by decide, recovers := by decide, setsErr := by decide,
     cap := by decide, selRes := by decide, selLink := by decide, wfrees := by decide,
-    skipDec := by decide, pubChecksClosed := by decide }
+    skipDec := by decide, pubChecksClosed := by decide, invokeOutside := by decide }
 
 theorem cur_only_closed : Skeleton.current.bcReceiveErrorsOnlyClosed = true := cur_wakes.onlyClosed
+
+theorem cur_invoke_outside_lock : Skeleton.current.clInvokeOutsideLock = true := cur_live.invokeOutside
+
+/-- the current tree with ONE fact flipped: `CallClosure` keeps the closure table's mutex while the closure
+    runs (`m.closuresLock.Lock(); defer m.closuresLock.Unlock()`).  Used by the witness theorems of C05 /
+    C12 that show what the fact `clInvokeOutsideLock` protects against. -/
+def skLockAcrossClosure : Skeleton := { Skeleton.current with clInvokeOutsideLock := false }
 
 /-- the current tree with ONE fact flipped: `Receive` also refuses a caller context that is done already
     (`if err := ctx.Err(); err != nil { return nil, err }` after the closed check).  Used by the witness
